@@ -38,7 +38,7 @@ import (
 
 type c17Step struct {
 	C Bs  `json:"c"`
-	T int `json:"t"` // 0 no terminal, 1 io.EOF, n>=2 scripted error number n-2
+	T int `json:"t"` // 0 no terminal, 1 io.EOF, n>=2 scripted error number n-2, n<0 a sentinel of the standard library (c17Sentinels[-n-1])
 }
 
 type c17Op struct {
@@ -95,8 +95,23 @@ type c17Err struct{ n int }
 
 func (e *c17Err) Error() string { return fmt.Sprintf("scripted error %d", e.n) }
 
+// c17Sentinels: terminal conditions real streams end with (T = -1-index): net/http's chunked reader returns
+// io.ErrUnexpectedEOF for a truncated upload, a pipe io.ErrClosedPipe, a reader that gives up io.ErrNoProgress; wrapped
+// values are what a decorating reader makes of them (errors.Is matches, == does not). The original terminal condition
+// is THAT value, whatever an idiom in between usually takes it to mean.
+var c17Sentinels = []error{
+	io.ErrUnexpectedEOF,
+	io.ErrNoProgress,
+	io.ErrClosedPipe,
+	io.ErrShortBuffer,
+	fmt.Errorf("decorated: %w", io.EOF),
+	fmt.Errorf("decorated: %w", io.ErrUnexpectedEOF),
+}
+
 func c17Term(t int) error {
 	switch {
+	case t < 0:
+		return c17Sentinels[(-t-1)%len(c17Sentinels)]
 	case t == 0:
 		return nil
 	case t == 1:
@@ -232,7 +247,7 @@ func (c17) Enumerate(tier string) []any {
 	hist := []string{"h r5 r100 r1 c", "h h r3 h r100 r1 c c r1 h r1", "r4 h r100 r1", "h c r1 r0 h r1 c", "c h r1 c", "h r0 r0 r1 r4096 r1", "h", "h h h", "h r5000 r5000"}
 	// error / EOF at every offset of a short body, every terminal placement, 1-byte chunks and whole
 	for off := 0; off <= len(body); off++ {
-		for _, term := range []int{1, 2} {
+		for _, term := range []int{1, 2, -1} {
 			for _, together := range []bool{false, true} {
 				for _, one := range []bool{false, true} {
 					var steps []c17Step
@@ -384,6 +399,9 @@ func c17GenRequest(r *rand.Rand, tier string, salt int) c17In {
 	}
 	if r.Intn(6) == 0 {
 		in.CErr = 2 + r.Intn(3)
+		if r.Intn(4) == 0 {
+			in.CErr = -1 - r.Intn(len(c17Sentinels))
+		}
 	}
 	// body
 	size := c17Sizes[r.Intn(len(c17Sizes))]
@@ -405,6 +423,14 @@ func c17GenRequest(r *rand.Rand, tier string, salt int) c17In {
 		term = 2 + r.Intn(3)
 	case 2:
 		term = 0 // the script just runs out (EOF)
+	case 3: // a sentinel of the standard library, after a prefix or at the end
+		term = -1 - r.Intn(len(c17Sentinels))
+		if r.Intn(2) == 0 {
+			term = -1 // io.ErrUnexpectedEOF: how a truncated chunked upload ends
+		}
+		if r.Intn(2) == 0 {
+			cut = r.Intn(len(body) + 1)
+		}
 	}
 	body = body[:cut]
 	// chunking
@@ -866,13 +892,7 @@ func (c17) Coq(inAny any, obsAny any) string {
 	in, obs := inAny.(c17In), obsAny.(c17Obs)
 	stepsOf := func(steps []c17Step) string {
 		return coqList(steps, func(s c17Step) string {
-			t := "None"
-			switch {
-			case s.T == 1:
-				t = "(Some EOF)"
-			case s.T >= 2:
-				t = fmt.Sprintf("(Some (EScript %d))", s.T-2)
-			}
+			t := c17CoqErr(c17ErrClass(c17Term(s.T)))
 			return coqPair(coqBytes(string(s.C)), t)
 		})
 	}
@@ -907,8 +927,8 @@ func (c17) Coq(inAny any, obsAny any) string {
 		}
 	})
 	cerrOf := func(n int) string {
-		if n >= 2 {
-			return fmt.Sprintf("(Some (EScript %d))", n-2)
+		if n >= 2 || n < 0 {
+			return c17CoqErr(c17ErrClass(c17Term(n)))
 		}
 		return "None"
 	}
@@ -950,6 +970,8 @@ func (c17) Category(inAny any, obsAny any) (string, bool) {
 		if s.T != 0 {
 			if s.T == 1 {
 				term = "eof"
+			} else if s.T < 0 {
+				term = "io-error"
 			} else {
 				term = "error"
 			}
